@@ -120,6 +120,15 @@ theorem int_block_index (index : List Int) (l0 l1 : Int) :
   have := blockIndexInt_eq l0 l1 index 0 [] rfl
   simpa [valueIndicesInt] using this
 
+/-- **Integer-array assignment on the plan**: the block `[l0, l1)` assigns exactly the pairs `(index[k], V[k])`
+    whose target lies in it, in increasing `k` — together with `blocks_cover`/`blocks_disjoint` every pair is
+    assigned in exactly one block, and a position named several times ends with NumPy's value (the last one). -/
+theorem int_index_pairs {α : Type} (index : List Int) (V : List α) (l0 l1 : Int) :
+    blockAssignInt index V l0 l1 = (index.zip V).filter (fun p => decide (l0 ≤ p.1) && decide (p.1 < l1)) :=
+  blockAssignInt_eq index V l0 l1
+
+example : blockAssignInt [5, 0, 5, 2] ["a", "b", "c", "d"] 4 7 = [(5, "a"), (5, "c")] := by decide
+
 /-- every position of the axis lies in a block… -/
 theorem blocks_cover (lengths : List Nat) (v : Int) (h0 : 0 ≤ v) (h1 : v < ((lengths.sum : Nat) : Int)) :
     ∃ p ∈ locations lengths, p.1 ≤ v ∧ v < p.2 :=
